@@ -115,11 +115,16 @@ func (s *Server) handleRequest(ctx context.Context, stream network.Stream) (_err
 		)
 	}()
 
-	if resp.PendingInstance > req.FirstInstance {
+	if resp.PendingInstance > req.FirstInstance && limit > 0 {
 		// Only try to return up-to but not including the pending instance we just told the
 		// client about. Otherwise we could return instances _beyond_ that which is
 		// inconsistent and confusing.
-		end := req.FirstInstance + limit
+		// GetRange is inclusive on both ends, so the last instance to serve is first + limit - 1.
+		end := req.FirstInstance + limit - 1
+		if end < req.FirstInstance {
+			// first + limit - 1 wrapped around.
+			end = resp.PendingInstance - 1
+		}
 		if end >= resp.PendingInstance {
 			end = resp.PendingInstance - 1
 		}
